@@ -149,6 +149,13 @@ class VOpaque:
         self.what = what
 
 
+class VClass:
+    """a class passed as a value (formula_class): `ident` distinguishes the classes symbolically"""
+
+    def __init__(self, model, ident):
+        self.model, self.ident = model, ident
+
+
 class VClosure:
     def __init__(self, node, env, modinfo):
         self.node, self.env, self.modinfo = node, env, modinfo
@@ -380,6 +387,10 @@ class Engine:
             return None
         if ty == 'opaque':
             return VOpaque(base)
+        if ty == 'any':
+            return VOpaque(base)
+        if ty.startswith('class:'):
+            return VClass(ty[6:], self.fresh(base))
         if ty == 'opaquestr':
             return '<str>'
         if ty == 'optstr':
@@ -542,6 +553,7 @@ class Engine:
 
     def run_top(self, rel, qual, node, c):
         self.modinfo = self.repo.module(rel)
+        self.created = {}
         env = self.bind_params(node, c, rel, qual)
         for g, ty in c.get('ghost_params', {}).items():
             env[g] = self.fresh_of_type(g, ty)
@@ -569,7 +581,12 @@ class Engine:
                 g = self.spec_eval(cond, {**old, '__old__': old})
                 self.oblige('raises-iff', 'normal exit although {} is promised when [{}]'.format(exc, cond), znot(toz(g)) if not isinstance(g, bool) else (not g), node.lineno)
             for i, e in enumerate(c.get('ensures', [])):
-                self.oblige('post', e, self.spec_eval(e, post_env), node.lineno)
+                try:
+                    g = self.spec_eval(e, post_env)
+                except SpecError as se:
+                    self.oblige('post', e + '   [not expressible on this path: {}]'.format(se), False, node.lineno)
+                    continue
+                self.oblige('post', e, g, node.lineno)
         else:
             e = outcome[1]
             self.exits['raise'][e.name] = self.exits['raise'].get(e.name, 0) + 1
@@ -1115,6 +1132,10 @@ class Engine:
         return zand(*out)
 
     def compare(self, op, a, b, node):
+        if isinstance(a, VClass):
+            a = a.ident
+        if isinstance(b, VClass):
+            b = b.ident
         if isinstance(op, (ast.Is, ast.IsNot)):
             if a is None or b is None:
                 other = b if a is None else a
@@ -1368,7 +1389,20 @@ class Engine:
             return f.fn(self, e, *args, **kw)
         if isinstance(f, tuple) and f[0] == 'method' and isinstance(f[1], str) and f[2] == 'format':
             # str.format: result opaque; a format string with more placeholders than arguments raises IndexError
-            if self.choose(2) == 1:
+            fmt = f[1]
+            safe = False
+            if not fmt.startswith('<') and not any(isinstance(a, ast.Starred) for a in e.args):
+                import string
+                try:
+                    fields = [fld for _, fld, _, _ in string.Formatter().parse(fmt) if fld is not None]
+                    auto = sum(1 for x in fields if x == '')
+                    nums = [int(x.split('.')[0].split('[')[0]) for x in fields if x and x.split('.')[0].split('[')[0].isdigit()]
+                    names = [x for x in fields if x and not x.split('.')[0].split('[')[0].isdigit()]
+                    kwn = {k.arg for k in e.keywords}
+                    safe = auto <= len(e.args) and all(n < len(e.args) for n in nums) and all(x.split('.')[0].split('[')[0] in kwn for x in names)
+                except ValueError:
+                    safe = False
+            if not safe and self.choose(2) == 1:
                 raise PyExc('IndexError', e.lineno)
             return '<formatted>'
         if any(isinstance(a, ast.Starred) for a in e.args):
@@ -1377,6 +1411,11 @@ class Engine:
         kw = {k.arg: self.eval(k.value, env) for k in e.keywords}
         if isinstance(f, VClosure):
             return self.call_inline(f.node, f.env, args, kw, f.modinfo, None, e)
+        if isinstance(f, VClass):
+            crel = self.classmodels[f.model]['file']
+            o = self.construct(crel, f.model, args, kw, e)
+            o.fields['cls'] = f.ident
+            return o
         if isinstance(f, tuple) and f[0] == 'method':
             return self.call_method(f[1], f[2], args, kw, e)
         if isinstance(f, tuple) and f[0] == 'global':
@@ -1430,6 +1469,10 @@ class Engine:
         a = fnode.args
         names = [x.arg for x in a.args]
         env = {}
+        if a.kwarg:
+            for k, v in kw.items():
+                if k not in names:
+                    env[k] = v
         if len(args) > len(names) and not a.vararg:
             raise PyExc('TypeError', node.lineno)
         for nme, v in zip(names, args):
@@ -1516,6 +1559,8 @@ class Engine:
         res = None
         if 'returns' in c:
             res = self.fresh_of_type('ret_' + key[1], c['returns'])
+            if isinstance(res, VObj):
+                self.created.setdefault(res.cls, []).append(res)
         post_env = dict(env)
         post_env['__old__'] = old
         post_env['result'] = res
@@ -1575,12 +1620,14 @@ class Engine:
         c = self.contracts.get(key)
         if c is None:
             raise Unsupported('constructor {} without contract'.format(cname))
-        hit = self.repo.resolve_method(rel, cname, '__init__')
+        hit = self.repo.resolve_method(rel, self.classmodels.get(cname, {}).get('real', cname), '__init__')
         o = VObj(cname)
         model = self.classmodels.get(cname, {'fields': {}})
         for f, ty in model['fields'].items():
             o.fields[f] = self.fresh_of_type('{}.{}'.format(cname, f), ty)
-        self.call_contract(key, c, hit[2], args, kw, node, o)
+        fnode = hit[2] if hit else ast.parse('def __init__(self, *args, **kw): pass').body[0]
+        self.call_contract(key, c, fnode, args, kw, node, o)
+        self.created.setdefault(cname, []).append(o)
         return o
 
     def class_mro(self, cls):
@@ -1606,9 +1653,10 @@ class Engine:
             crel = self.classmodels.get(o.cls, {}).get('file')
             if crel is None:
                 raise Unsupported('class {} has no model'.format(o.cls))
-            hit = self.repo.resolve_method(crel, o.cls, meth)
+            real = self.classmodels[o.cls].get('real', o.cls)
+            hit = self.repo.resolve_method(crel, real, meth)
             if hit is None:
-                raise Unsupported('method {}.{} not found'.format(o.cls, meth))
+                raise Unsupported('method {}.{} not found'.format(real, meth))
             mrel, mcls, fnode = hit
             # contract may be registered under the dynamic class or the defining class
             for key in ((crel, '{}.{}'.format(o.cls, meth)), (mrel, '{}.{}'.format(mcls, meth))):
@@ -1696,6 +1744,18 @@ def sf_old(eng, node, env):
 sf_old.raw = True
 
 
+def sf_created(eng, node, cls, i):
+    """the i-th object of class model `cls` created (or returned by a contracted callee) during the call"""
+    objs = eng.created.get(cls, [])
+    if i >= len(objs):
+        raise SpecError('no created object {}[{}]'.format(cls, i))
+    return objs[i]
+
+
+class SpecError(Exception):
+    pass
+
+
 def sf_implies(eng, node, a, b):
     a, b = as_bool(a), as_bool(b)
     if a is False or b is True:
@@ -1731,7 +1791,10 @@ def _wrap(fn, ret=None):
 
 
 SPEC_FUNCS = {
-    'old': sf_old, 'implies': sf_implies, 'forall': sf_forall_int,
+    'old': sf_old, 'implies': sf_implies, 'forall': sf_forall_int, 'created': sf_created,
+    'm_complete': _wrap(specs.m_complete), 'm_functional': _wrap(specs.m_functional),
+    'm_surjective': _wrap(specs.m_surjective), 'm_injective': _wrap(specs.m_injective),
+    'm_nondecreasing': _wrap(specs.m_nondecreasing), 'bitlen': _wrap(specs.bitlen),
     'count': _wrap(specs.count), 'sat': _wrap(specs.sat), 'ctrue': _wrap(specs.ctrue),
     'ilen': _wrap(specs.ilen), 'clen': _wrap(specs.clen), 'neg': _wrap(specs.ineg),
     'capp': _wrap(specs.capp), 'csnoc': _wrap(specs.csnoc), 'combs': _wrap(specs.combs),
